@@ -79,5 +79,133 @@ PROPS = {
  ),
 }
 
-PREDICATES = {}
+
+# ------------------------------------------------------------------ daemon side
+DAEMON_TB = ["modelled, not verified: chrony-candm 0.1.1 ChronyFloat -> f64 conversion (mirrored), IEEE-754 binary64 as exact-rational round-to-nearest-even, Rust `as` casts (saturating), SystemTime::elapsed as exact ns difference, std::sync::mpsc FIFO delivery"]
+
+def proj_extract(i):
+    def p(c):
+        a, b = c.impl.split(), c.model.split()
+        return (a[i:i + 1], b[i:i + 1])
+    return p
+
+def proj_upd(c):
+    return (c.impl.split(' ## ')[0], c.model.split(' ## ')[0])
+
+def proj_first2(c):
+    a, b = c.impl.split(), c.model.split()
+    if a[:1] == ['refused']: a = a[:1]
+    return (a, b)
+
+import subprocess, concurrent.futures, os, random
+
+def c19_run(reqs):
+    """build the release daemon from /repo's working tree and run it once per request line"""
+    env = dict(os.environ); env['CARGO_NET_OFFLINE'] = 'true'
+    p = subprocess.run(['cargo', 'build', '--release', '--offline', '-p', 'clock-bound-d', '--target-dir', '/verif/build/target-rel'],
+                       cwd='/repo', env=env, stdout=subprocess.PIPE, stderr=subprocess.STDOUT, text=True)
+    if p.returncode != 0:
+        return [f'{r} => build-failed' for r in reqs]
+    def one(r):
+        arg = r.split()[1]
+        cmd = ['/verif/tools/run_daemon.sh', '/verif/build/target-rel/release/clockbound'] + ([] if arg == 'none' else ['--max-drift-rate', arg])
+        q = subprocess.run(cmd, stdout=subprocess.PIPE, stderr=subprocess.DEVNULL, text=True, timeout=60)
+        return f'{r} => {q.stdout.strip() or "no-output"}'
+    with concurrent.futures.ThreadPoolExecutor(max_workers=12) as ex:
+        return list(ex.map(one, reqs))
+
+def c19_gen(seed, thorough):
+    def g():
+        rnd = random.Random(seed)
+        vals = ['none', 0, 1, 50, 1000, 4294966, 4294967, 4294968, 4294969, 2**32 - 1, 2**32, 8589935, 2**31, 4294968 * 2]
+        for _ in range(300 if thorough else 50):
+            k = rnd.randrange(4)
+            vals.append(rnd.randrange(0, 4294968) if k == 0 else rnd.randrange(4294968, 2**32) if k == 1 else rnd.randrange(4294960, 4294980) if k == 2 else rnd.randrange(0, 100000))
+        return c19_run([f'drift {v}' for v in dict.fromkeys(vals)])
+    return [g]
+
+EXTERNAL = {'drift': c19_run}
+
+def k2_pred(c):
+    return c.verdicts.get('C07') == 'holds' and c.verdicts.get('C07strict') == 'FAILS'
+PREDICATES = {'k2_f64_shortfall': k2_pred}
 NOT_APPLICABLE = {}
+
+PROPS.update({
+ 'C07': dict(
+    oracle='C07', also=['C07strict'],
+    gens=lambda seed, th: [['extract', seed, 2000000 if th else 60000], ['upd', seed, 20000 if th else 1500]],
+    relevant=lambda c: kind(c) == 'extract',
+    project=proj_extract(0),
+    nontrivial=lambda c: 'fracNs' in c.tags and ('negOffset' in c.tags or 'posOffset' in c.tags),
+    rule="chrony Tracking replies deserialised from wire bytes by chrony-candm itself: exponents -34..+2, 25-bit coefficients incl. extremes, both signs of the offset, zeros; distinct = sha1 of request; non-trivial = offset != 0 and fractional-ns exact sum (negative offsets counted separately in input_distribution: tag negOffset)",
+    trusted_base=DAEMON_TB,
+    assumptions=["proved with the f64 evaluation error explicit: E(1-2^-51) <= bound < E(1+2^-51)+1; the strict reading E <= bound is false of any f64 pipeline (theorem C07.strict_false) and recorded as known finding K2"],
+    technique='Lean 4 proof over the rational f64 model (three roundings, ceil, saturating cast) + differential correspondence of extract_bound_from_tracking on wire-level inputs',
+    level_text='Theorem C07.bound_bounds proves for all 2^96 wire triples with non-negative delay/dispersion and E < 2^62 ns that 0 <= bound and E(1-2^-51) <= bound < E(1+2^-51)+1 with E the exact |offset|+dispersion+delay/2 in ns; sign_irrelevant shows only the magnitude of the offset matters; model_holds adds the PHC term. strict_false proves the literal real-number reading fails by < 2^-51 E for a concrete input (known finding K2). The real extract_bound_from_tracking is compared on ~60k wire-level reports per run.',
+    level_note='Trusted: Lean kernel + standard axioms; ChronyFloat decoding and IEEE rounding are modelled; correspondence is differential testing.',
+ ),
+ 'C10': dict(
+    oracle='C10',
+    gens=lambda seed, th: [['leapgrid'], ['extract', seed, 1000000 if th else 40000]],
+    relevant=lambda c: kind(c) == 'extract',
+    project=proj_extract(1),
+    nontrivial=lambda c: bool(c.tags & {'nearStale', 'future', 'leap3', 'leapOther'}),
+    rule="exhaustive over all 65536 leap codes x {fresh, at threshold, 1 ns past, stale, future} plus seeded reports with intervals {negative, 0, <1 s, 16, 16.125, huge} and ages at floor(8*interval) s -1/0/+1 ns and +-1 s; non-trivial = stale-threshold neighbourhood, future reference time, or a non-synchronised leap code",
+    exhaustive=True,
+    trusted_base=DAEMON_TB,
+    technique='Lean 4 proof (total characterisation of the classifier incl. the saturating f64->u64 cast) + exhaustive leap-code sweep and boundary differential correspondence under a virtual realtime clock',
+    level_text='Theorem C10.classify_eq characterises the class for all 65536 leap codes, all wire intervals and all reference times; synchronized_only_if / stale_or_leap3_freeRunning / other_unknown / fresh_synchronized are the property clauses, threshold_le shows the whole-second threshold never exceeds eight intervals. Every leap code is run on the real code each run.',
+    level_note='Trusted: Lean kernel + standard axioms; SystemTime::elapsed modelled as exact ns difference under an interposed CLOCK_REALTIME.',
+ ),
+ 'C08': dict(
+    oracle='C08',
+    gens=lambda seed, th: [['upd', seed, 100000 if th else 3000]],
+    relevant=lambda c: kind(c) == 'upd',
+    project=proj_upd,
+    nontrivial=lambda c: {'len3', 'statusChange', 'hasSync'} <= c.tags,
+    rule="histories (length 1..60) over the eight message kinds with run-lengths, first synchronised report early/late/never, fed through the real process_messages loop over a real mpsc channel into a recording ShmWrite sink; non-trivial = length >= 3, >= 1 status change, >= 1 synchronised report",
+    trusted_base=DAEMON_TB,
+    technique='Lean 4 refinement proof (updater state machine = one-line spec of the history, by induction over messages) + differential correspondence of the real process_messages/ShmUpdater on generated histories',
+    level_text='Theorem C08.refinement: for every finite message list from a fresh updater the k-th published record equals spec(first k+1 outcomes) - bound/as-of of the last synchronised report, void-after = as-of.sec+1000, configured drift, status = class of the latest outcome once a synchronised report was seen; one_publication_per_outcome, drift_published, void_after are corollaries.',
+    level_note='Trusted: Lean kernel + standard axioms; mpsc FIFO; the bound/class of each report is taken from the implementation itself so that C08 is independent of C07/C10.',
+ ),
+ 'C09': dict(
+    oracle='C09',
+    gens=lambda seed, th: [['upd', seed, 100000 if th else 3000]],
+    relevant=lambda c: kind(c) == 'upd',
+    project=proj_upd,
+    nontrivial=lambda c: 'trustTemptation' in c.tags,
+    rule="same histories as C08; non-trivial = the history has a prefix without any synchronised report that ends in a FreeRunning-class outcome (leap 3, stale, in-grace silence or PHC failure), i.e. the situation in which trust could be advertised without a measurement",
+    trusted_base=DAEMON_TB,
+    technique='Lean 4 invariant proof over all message histories (status != Unknown only with bound/as-of of a synchronised report) + client corollary + differential correspondence on histories without synchronised reports',
+    level_text='Theorem C09.model_holds: in every reachable updater state a non-Unknown status is published only with the bound and as-of of the most recent synchronised report; unknown_until_first_sync and client_sees_unknown give the property as stated (clients see Unknown at every uptime).',
+    level_note='Trusted: Lean kernel + standard axioms; correspondence is differential testing.',
+ ),
+ 'C11': dict(
+    oracle='C11',
+    gens=lambda seed, th: [['genall']],
+    relevant=lambda c: kind(c) == 'gen',
+    nontrivial=lambda c: True,
+    exhaustive=True,
+    rule="exhaustive: the real ShmWriter::write is run from each of the 65536 generation values poked into a tmpfs segment; the in-flight value is observed at the record-copy hook, the final value read from the file; all cases are non-trivial and distinct",
+    trusted_base=["modelled: u16 wrapping arithmetic as Nat mod 65536"],
+    technique='Lean 4 proof (omega) of the start/finish arithmetic for all 65536 values and of the invariant over all histories of completed/interrupted updates + exhaustive differential run of the real write()',
+    level_text='Theorems C11.start_odd, finish_props, wrap, update_changes and history_invariant: for every start value and every history of start/finish/crash events the generation is odd during an update, even and non-zero when idle after a completed update, changes with every completed update and never returns to 0. The real write() is run from all 65536 start values on every run.',
+    level_note='Trusted: Lean kernel + standard axioms. Interleaving with readers is the subject of C02/C03, not of C11.',
+ ),
+ 'C19': dict(
+    oracle='C19',
+    gens=c19_gen,
+    relevant=lambda c: kind(c) == 'drift',
+    project=proj_first2,
+    nontrivial=lambda c: bool(c.tags & {'boundary', 'unrepresentable'}),
+    shrink=False,
+    rule="the release `clockbound` binary built from the working tree is started in a private mount namespace (tmpfs /run) with --max-drift-rate X for X in {omitted, 0, 1, 50, 4294967, 4294968, 2^32-1, 2^32 (clap rejects), ...} plus seeded values; the max_drift_ppb field of the published segment or the exit status is compared; non-trivial = X*1000 >= 2^32 - 2000 (boundary or unrepresentable)",
+    trusted_base=["clap's u32 parsing and process start-up are observed by running the binary, not modelled", "unshare -m + tmpfs isolation of /run"],
+    technique='Lean 4 proof (omega) over all 32-bit rates + process-level differential runs of the release binary',
+    level_text='Theorems C19.exact_or_refused, never_wrapped, default_one_ppm, published: the conversion yields exactly 1000 x rate or refuses, never a wrapped value, and the value reaches every published record. The 2^32 quantifier is carried by the theorem; ~60 release-binary runs per check sample it at the boundary.',
+    level_note='Trusted: Lean kernel + standard axioms; the CLI layer is observed, not modelled.',
+ ),
+})
+
